@@ -80,7 +80,7 @@ def truncateImplF (stopFix : Bool) (s : List Item) (dw : Nat) (tail : List Item)
 /-- `truncate_str_impl` as the source is now. -/
 def truncateImpl (s : List Item) (dw : Nat) (tail : List Item) (fill : Option G) :
     Except Err (List Item) :=
-  truncateImplF Generated.truncStopsAfterCut s dw tail fill
+  truncateImplF Generated.wrapTruncStopsAfterCut s dw tail fill
 
 /-- `truncate_str` -/
 def truncateStr (s : List Item) (dw : Nat) (tail : List Item) : Except Err (List Item) :=
